@@ -10,6 +10,24 @@ use serde::{Deserialize, Serialize};
 pub struct Case {
     pub seq: Bytes,
     pub k: usize,
+    /// the sequence is repeated until it has at least this many bytes (0 = as it is):
+    /// clean runs and positions beyond 2^16
+    #[serde(default)]
+    pub min_len: usize,
+}
+
+pub fn stretched(seq: &[u8], min_len: usize) -> Vec<u8> {
+    let mut out = seq.to_vec();
+    if !seq.is_empty() {
+        while out.len() < min_len {
+            out.extend_from_slice(seq);
+        }
+    }
+    out
+}
+
+pub fn min_len_strategy() -> BoxedStrategy<usize> {
+    prop_oneof![300 => Just(0usize), 2 => Just(5_000usize), 1 => Just(70_000usize), 1 => Just(140_000usize)].boxed()
 }
 
 pub struct Iter;
@@ -64,12 +82,15 @@ impl Leg for Iter {
     fn strategy(tier: Tier) -> BoxedStrategy<Case> {
         let max = tier.pick(300, 3000);
         gen::k_strategy()
-            .prop_flat_map(move |k| (gen::seq(k, max, false), Just(k)))
-            .prop_map(|(seq, k)| Case { seq: Bytes(seq), k })
+            .prop_flat_map(move |k| (gen::seq(k, max, false), Just(k), min_len_strategy()))
+            .prop_map(|(seq, k, min_len)| Case { seq: Bytes(seq), k, min_len })
             .boxed()
     }
     fn check(c: &Case) -> Verdict {
-        check_case(&c.seq, c.k)
+        let seq = stretched(&c.seq, c.min_len);
+        let mut v = check_case(&seq, c.k);
+        v.class_if(seq.len() > 65536, "len>65536");
+        v
     }
 }
 
@@ -114,7 +135,7 @@ impl Leg for Python {
     }
     fn check(c: &Case) -> Verdict {
         let mut v = Verdict::new();
-        let seq = utf8_safe(&c.seq);
+        let seq = utf8_safe(&stretched(&c.seq, c.min_len.min(70_000)));
         let want = model::windows(&seq, c.k);
         v.class("python");
         v.class_if(seq.iter().any(|&b| b >= 0x80), "non-ascii");
